@@ -477,9 +477,10 @@ def run_check(prop_id, tier, seed):
         budget = 25 if tier == 'quick' else 120
         for part in parts:
             fails = sorted(merged[part.name]['failures'].items(), key=lambda kv: case_size(kv[1][0]))
-            for sig, (case, fj, cnt) in fails[:6]:
+            n_shrink = 0 if getattr(part, 'no_shrink', False) else 6
+            for sig, (case, fj, cnt) in fails[:n_shrink]:
                 shrink_tasks.append((prop_id, part.name, case, sig, budget, open_classes))
-            for sig, (case, fj, cnt) in fails[6:]:
+            for sig, (case, fj, cnt) in fails[n_shrink:]:
                 path = write_replay(prop_id, part.name, case, fj, seed, tier, False)
                 violations.append((part.name, sig, path, '%d cases' % cnt))
         if shrink_tasks and not harness_errors:
